@@ -151,6 +151,19 @@ func (e *Exec) scenarioShape(path string, t types.Type, a string) ([]altFn, bool
 			s.CellTypes[r.Cell] = p.Elem()
 			return r
 		}, a)
+	case "strs": // strs(a,b): a slice of concrete strings
+		return one(func(s *State) Val {
+			var els []Val
+			for _, x := range args {
+				els = append(els, lit(x))
+			}
+			if len(els) == 0 {
+				return SliceV{}
+			}
+			r := s.alloc(&Agg{Elems: els})
+			delete(s.Fresh, r.Cell)
+			return SliceV{Arr: r, Len_: len(els), Cap: len(els)}
+		}, a)
 	case "symmap": // an unknown map: lookups yield fresh symbols
 		return one(func(s *State) Val {
 			r := s.alloc(&MapAgg{Unknown: true, Tag: path})
